@@ -1,9 +1,11 @@
 #!/bin/sh
-# usage: tools/run_all.sh quick|thorough  -> /tmp/runall_<tier>.log
+# usage: tools/run_all.sh quick|thorough [ids...]  -> /tmp/runall_<tier>.log (one line per check), per-check logs next to it
 TIER=${1:-quick}
+shift 2>/dev/null
+IDS=${*:-C01 C02 C03 C04 C05 C06 C07 C08 C09 C10 C11 C12 C13 C14 C15 C16 C17 C18 C19 C20}
 cd /verif
 : > /tmp/runall_$TIER.log
-for id in C01 C02 C03 C04 C05 C06 C07 C08 C09 C10 C11 C12 C13 C14 C15 C16 C17 C18 C19 C20; do
+for id in $IDS; do
   S=$(date +%s)
   ./check $id --tier $TIER > /tmp/runall_${TIER}_$id.log 2>&1; RC=$?
   E=$(date +%s)
